@@ -694,8 +694,8 @@ type frpc struct {
 	stopped bool
 }
 
-func startFrpc(cfg string) (*frpc, error) {
-	ch, err := h.StartChild(prop, "frpc", cfg)
+func startFrpc(cfg string, env ...string) (*frpc, error) {
+	ch, err := h.StartChild(prop, "frpc", cfg, env...)
 	if err != nil {
 		if ch != nil {
 			cleanupChild(ch)
